@@ -79,6 +79,8 @@ def gen_cells(rng, fam, n):
             cells.append(rng.choice(STR_POOL) if not small else rng.choice(['a', 'b', 'abc']))
         else:
             d = rng.choice(DATE_POOL) if not small else rng.choice(DATE_POOL[:3])
+            if not small and rng.random() < 0.35:
+                d = d.replace(microsecond=rng.choice([rng.randrange(10 ** 6), 1001, 249, 999999]))
             if fam == 'datetime64[s]':
                 d = d.replace(microsecond=0)
             elif fam == 'datetime64[ms]':
